@@ -14,11 +14,14 @@ VERIF = os.path.dirname(os.path.dirname(os.path.abspath(__file__)))
 SEEDT = os.path.join(VERIF, "driver", "seedtest.py")
 
 
+ROUND = 1
+
+
 def jobs(props):
     out = []
     for p in props:
-        d = "/tmp/seed/%s/out" % p
-        for n in (1, 2):
+        d = "/tmp/seed/%s/out%s" % (p, "" if ROUND == 1 else str(ROUND))
+        for n in (1, 2, 3):
             patch = os.path.join(d, "change%d.diff" % n)
             demo = next((os.path.join(d, f) for f in ("demo%d.sh" % n, "demo%d.rs" % n) if os.path.exists(os.path.join(d, f))), None)
             if os.path.exists(patch) and demo:
@@ -37,7 +40,11 @@ def confirm(job, lane):
 
 
 def main():
+    global ROUND
     props = sys.argv[1:]
+    if props and props[0].startswith("--round="):
+        ROUND = int(props[0].split("=")[1])
+        props = props[1:]
     js = jobs(props)
     lanes = 4
     results = {}
@@ -51,7 +58,7 @@ def main():
     for j in js:
         p, n, patch, demo = j
         c = results[(p, n)]
-        dst = os.path.join(VERIF, "seeded", "%s-%d" % (p, n))
+        dst = os.path.join(VERIF, "seeded", ("%s-%d" % (p, n)) if ROUND == 1 else ("%s-r%d-%d" % (p, ROUND, n)))
         if not c.get("confirmed"):
             print("NOT CONFIRMED %s-%d: %s" % (p, n, json.dumps(c)[:600]), flush=True)
             continue
@@ -63,9 +70,10 @@ def main():
         os.makedirs(dst, exist_ok=True)
         shutil.copy(patch, os.path.join(dst, "patch.diff"))
         for ext in (".sh", ".rs"):
-            f = os.path.join(os.path.dirname(patch), "demo%d%s" % (n, ext))
-            if os.path.exists(f):
-                shutil.copy(f, os.path.join(dst, "demo%d%s" % (n, ext)))
+            for stem in ("demo%d" % n, "demo%d_test" % n):
+                f = os.path.join(os.path.dirname(patch), stem + ext)
+                if os.path.exists(f):
+                    shutil.copy(f, os.path.join(dst, stem + ext))
         md = os.path.join(os.path.dirname(patch), "change%d.md" % n)
         if os.path.exists(md):
             shutil.copy(md, os.path.join(dst, "change.md"))
